@@ -670,6 +670,28 @@ pub fn regex_tok(r: &mut StdRng, re: Value, bad: &str) -> Tok {
     }
 }
 
+/// the same regular expressions written in the other literal form (quoted <-> raw): equal ASTs, so equal hashes
+pub fn flip_regex_forms(r: &mut StdRng, ts: &[Tok]) -> Vec<Tok> {
+    ts.iter()
+        .map(|t| match t {
+            Tok::Regex { pat, form, bad, re, .. } if bad == "none" => {
+                let text = String::from_utf8(pat.clone()).unwrap();
+                if form == "r" {
+                    let body = quote_regex(pat);
+                    let txt = format!("\"{}", String::from_utf8(body.clone()).unwrap());
+                    Tok::Regex { pat: pat.clone(), form: "q".into(), bad: bad.clone(), re: re.clone(), body, txt }
+                } else {
+                    match raw_text(r, text.as_bytes()) {
+                        Some(txt) => Tok::Regex { pat: pat.clone(), form: "r".into(), bad: bad.clone(), re: re.clone(), body: vec![], txt },
+                        None => t.clone(),
+                    }
+                }
+            }
+            other => other.clone(),
+        })
+        .collect()
+}
+
 const WILD_ALPHA: [u8; 7] = [b'a', b'A', b'*', b'?', b'\\', b'b', b'*'];
 
 pub fn wild_tok(r: &mut StdRng, hint: Option<Vec<u8>>) -> Tok {
